@@ -2,6 +2,7 @@
 from __future__ import annotations
 
 import collections
+import os
 import sqlite3
 import warnings
 from typing import Any
@@ -22,7 +23,9 @@ RULE = (
     "without a heartbeat, finished trials, and stale trials that are themselves retries "
     "(several generations deep), with params, user attrs and intermediate values; "
     "RetryFailedTrialCallback(max_retry in {None, 0, 1, 2}, inherit_intermediate_values); 2-3 "
-    "workers each running fail_stale_trials / ask in generated order; optionally one worker dies "
+    "workers each running fail_stale_trials / ask / 'the slow owner of a stale trial completes it "
+    "now' in generated order, in a generated local time zone (the database clock is UTC), fresh "
+    "heartbeats recorded 1-3 times by the real record_heartbeat; optionally one worker dies "
     "at a generated yield point of its sweep. A deterministic line-level scheduler owns the "
     "interleaving: all single-preemption schedules (quick tier: a stratified sample) plus "
     "generated multi-preemption schedules. Oracle after a final sweep by a live worker: every "
@@ -58,16 +61,22 @@ def case_scenario(draw: Any) -> dict[str, Any]:
                 # age of a stale heartbeat in seconds (grace period: 3600): just past it, hours,
                 # whole days plus a little, many days
                 "age": draw(st.sampled_from([3700, 40000, 86400 + 1800, 86400 + 100, 3 * 86400 + 50, 100000, 10**7])),
+                # how often the (real) record_heartbeat ran for the trial: the first call inserts
+                # the row, later ones update it
+                "beats": draw(st.integers(1, 3)),
             }
         )
     if not any(t["kind"] == "stale" for t in trials):
         trials[0]["kind"] = "stale"
     nw = draw(st.integers(2, 3))
-    workers = [draw(st.lists(st.sampled_from(["sweep", "sweep", "ask", "sweep"]), min_size=1, max_size=2)) for _ in range(nw)]
+    # "finish": the slow-but-alive owner of the first stale trial completes it now
+    workers = [draw(st.lists(st.sampled_from(["sweep", "sweep", "ask", "sweep", "finish"]), min_size=1, max_size=2)) for _ in range(nw)]
     workers[0][0] = "sweep"
     workers[1][0] = "sweep"
     return {
         "layout": draw(st.sampled_from(LAYOUTS)),
+        # local time zone of the workers (the database clock is UTC)
+        "tz": draw(st.sampled_from(["UTC", "UTC", "EST5", "JST-9"])),
         "trials": trials,
         "max_retry": draw(st.sampled_from([None, 0, 1, 2, 3])),
         "inherit": draw(st.booleans()),
@@ -79,6 +88,22 @@ def case_scenario(draw: Any) -> dict[str, Any]:
 
 
 def execute(case: dict[str, Any], preempt: dict[int, int], tmpdir: str, ctx: Ctx | None, death_at: int | None = None) -> tuple[int, bool]:
+    import time as _time
+
+    old_tz = os.environ.get("TZ")
+    os.environ["TZ"] = case.get("tz", "UTC")
+    _time.tzset()
+    try:
+        return _execute(case, preempt, tmpdir, ctx, death_at)
+    finally:
+        if old_tz is None:
+            os.environ.pop("TZ", None)
+        else:
+            os.environ["TZ"] = old_tz
+        _time.tzset()
+
+
+def _execute(case: dict[str, Any], preempt: dict[int, int], tmpdir: str, ctx: Ctx | None, death_at: int | None = None) -> tuple[int, bool]:
     import optuna
     import optuna.storages._callbacks as cbm
     import optuna.storages._heartbeat as hbm
@@ -125,7 +150,8 @@ def execute(case: dict[str, Any], preempt: dict[int, int], tmpdir: str, ctx: Ctx
             info[tid] = dict(spec, number=number)
             number += 1
             if k in ("stale", "fresh"):
-                s0.record_heartbeat(tid)
+                for _ in range(spec.get("beats", 1)):
+                    s0.record_heartbeat(tid)
             if k == "stale":
                 stale_ids.append(tid)
         getattr(s0, "_backend", s0).scoped_session.remove()
@@ -138,6 +164,7 @@ def execute(case: dict[str, Any], preempt: dict[int, int], tmpdir: str, ctx: Ctx
         stores = env.worker_storages()
         studies = [optuna.load_study(study_name="q", storage=s, sampler=optuna.samplers.RandomSampler(seed=10 + i)) for i, s in enumerate(stores)]
         errors: list[Any] = []
+        finish_acked: dict[int, Any] = {}  # trial id -> True (COMPLETE acknowledged) / False (rejected) / None (storage error)
         spans: list[tuple[int, int, int]] = []
         local_steps = [0] * nw
 
@@ -148,6 +175,17 @@ def execute(case: dict[str, Any], preempt: dict[int, int], tmpdir: str, ctx: Ctx
                     try:
                         if a == "sweep":
                             optuna.storages.fail_stale_trials(studies[i])
+                            spans.append((t0, sched.steps, i))
+                        elif a == "finish":
+                            tid_f = stale_ids[0]
+                            if finish_acked.get(tid_f) is True:
+                                continue
+                            finish_acked[tid_f] = None
+                            try:
+                                studies[i]._storage.set_trial_state_values(tid_f, TrialState.COMPLETE, [2.5])
+                                finish_acked[tid_f] = True
+                            except optuna.exceptions.UpdateFinishedTrialError:
+                                finish_acked[tid_f] = False
                             spans.append((t0, sched.steps, i))
                         else:
                             t = studies[i].ask()
@@ -198,7 +236,20 @@ def execute(case: dict[str, Any], preempt: dict[int, int], tmpdir: str, ctx: Ctx
         # (1) stale -> FAIL; (5) others untouched
         for tid, spec in info.items():
             t = by_id[tid]
-            if spec["kind"] == "stale":
+            if spec["kind"] == "stale" and tid in finish_acked:
+                # its owner tried to complete it while the sweeps ran: either the owner won
+                # (COMPLETE with its value, no failure handling at all) or a sweeper won (FAIL,
+                # the owner's call was rejected)
+                acked = finish_acked[tid]
+                if t.state == TrialState.COMPLETE:
+                    if acked is False or t.values != [2.5] or calls[t.number] or any(r.system_attrs.get("retry_history", [None])[-1] == t.number for r in trials):
+                        raise Violation("finished-trial-treated-as-failed", f"{sw}: trial {t.number} is COMPLETE with values {t.values} (owner's call acknowledged: {acked}) but the failure callback ran {calls[t.number]} time(s) / retries {[r.number for r in trials if r.system_attrs.get('retry_history', [None])[-1] == t.number]}", None)
+                elif t.state == TrialState.FAIL:
+                    if acked is True or t.values is not None:
+                        raise Violation("finished-trial-overwritten", f"{sw}: the owner's set_trial_state_values(trial {t.number}, COMPLETE, [2.5]) was acknowledged: {acked}, yet the trial is FAIL with values {t.values} (callback ran {calls[t.number]} time(s))", None)
+                else:
+                    raise Violation("stale-trial-not-failed", f"{sw}: trial {t.number} is {t.state.name}", None)
+            elif spec["kind"] == "stale":
                 if t.state != TrialState.FAIL:
                     raise Violation("stale-trial-not-failed", f"{sw}: trial {t.number} is {t.state.name}", None)
             else:
@@ -224,6 +275,8 @@ def execute(case: dict[str, Any], preempt: dict[int, int], tmpdir: str, ctx: Ctx
                 raise Violation("two-retries-for-one-failure", f"{sw}: trial {orig.number} has retries {[t.number for t in mine]} (callback calls {calls[orig.number]})", None)
             if mine and not allowed:
                 raise Violation("retry-beyond-max_retry", f"{sw}: trial {orig.number} history {hist} max_retry={case['max_retry']}", None)
+            if orig.state == TrialState.COMPLETE:
+                continue  # (completed by its owner: checked above)
             if not mine and allowed and calls[orig.number] == 1 and not died and not errors:
                 raise Violation("retry-missing", f"{sw}: callback ran for trial {orig.number} but no retry with history {hist} exists", None)
             for r in mine:
@@ -246,7 +299,7 @@ def execute(case: dict[str, Any], preempt: dict[int, int], tmpdir: str, ctx: Ctx
 
 
 def run_scenario(case: dict[str, Any], ctx: Ctx) -> None:
-    scen = {k: case[k] for k in ("layout", "trials", "max_retry", "inherit", "workers")}
+    scen = {k: case.get(k) for k in ("layout", "tz", "trials", "max_retry", "inherit", "workers")}
 
     def one(preempt: dict[int, int], death_at: int | None = None) -> int:
         try:
